@@ -89,8 +89,11 @@ def main():
     lock = threading.Lock()
     tally = {}
 
+    setup_lock = threading.Lock()
+
     def worker(k):
-        base = lane_setup(k)
+        with setup_lock:  # `git worktree add` must not run concurrently in one repository
+            base = lane_setup(k)
         try:
             while True:
                 try:
